@@ -149,7 +149,11 @@ def checkWcmp (ops dl nl dr nr l r res : String) : Option Verdict := do
   let byValue := nl.signed == nr.signed || commonSigned || (l ≥ 0 && r ≥ 0)
   let kind := match sl, sr with
     | .builtin _, .builtin _ => "bb" | .builtin _, .multi _ => "bm" | .multi _, .builtin _ => "mb" | .multi _, .multi _ => "mm"
-  some { model := showRes showBool m, spec := if byValue then some (res == showBool (WideSpec.specCmp op l r)) else none,
+  -- built-in representations of different signedness follow the built-in rule (the property says so);
+  -- a multi-word operand is an arbitrary-precision integer and must compare by value (known finding otherwise)
+  let constrained := byValue || kind != "bb"
+  let cls := if !byValue && kind != "bb" then "C03.wide_mixed_signedness_converts_to_unsigned" else ""
+  some { model := showRes showBool m, spec := if constrained then some (res == showBool (WideSpec.specCmp op l r)) else none, cls := cls,
          branch := "wcmp/" ++ ops ++ "/" ++ kind ++ (if rhsWider then "/rhs-wider" else if wl > wr then "/lhs-wider" else "/same-width")
                    ++ (if nl.signed != nr.signed then "/mixed-sign" else ""),
          nontrivial := true }
